@@ -454,4 +454,15 @@ def Pool.getCreatePanics (p : Pool) (now : Nat) : Pool × GetResult × Bool :=
   | (p', .got item true d) => ({ p' with next := p.next }, .got item true d, true)
   | (p', res) => (p', res, false)
 
+/-- `Get` when the `destroy` callback PANICS on the first expired resource it is called for.  The node has been
+popped and `p.created--` has run (both BEFORE `p.destroy(head.item)`), the panic leaves through the deferred
+`Unlock`; the rest of the idle list is untouched and no resource is handed out.  Second component: the resource
+whose destroy panicked; `none`: the head is not expired (or there is none), destroy is not called and the call is a
+plain `get`. -/
+def Pool.getDestroyPanics (p : Pool) (now : Nat) : Pool × Option Nat :=
+  match p.idle with
+  | nd :: rest =>
+    if expired p.maxAge now nd then ({ p with created := p.created - 1, idle := rest }, some nd.item) else (p, none)
+  | [] => (p, none)
+
 end GoZero.C05
